@@ -87,7 +87,15 @@ func (p *parser) advance() *token.Token {
 // returns the current token without advancing
 func (p *parser) peek() *token.Token {
 	if p.cur >= len(p.tokens) {
-		return &token.Token{Type: token.EOF}
+		// token lists without an EOF token of their own (the saved body of a generic function): the stand-in sits
+		// behind the last token, so that a diagnostic about the missing rest points into the text and not at 0:0
+		eof := &token.Token{Type: token.EOF}
+		if len(p.tokens) > 0 {
+			last := &p.tokens[len(p.tokens)-1]
+			eof.Indent = last.Indent
+			eof.Range = token.Range{Start: last.Range.End, End: last.Range.End}
+		}
+		return eof
 	}
 	return &p.tokens[p.cur]
 }
